@@ -32,6 +32,10 @@ func (self ValueObject) Display() (string, *Interrupt) {
 }
 
 func (self ValueObject) IsEqual(other Value) (bool, *Interrupt) {
+	// values of different kinds are never equal (mixed kinds occur inside any-objects)
+	if other.Kind() != self.Kind() {
+		return false, nil
+	}
 	otherObj := other.(ValueObject)
 
 	for key, value := range self.FieldsInternal {
